@@ -1,8 +1,10 @@
 """Shared corpus: network families x configuration lattice, reproducible from VERIF_SEED.
 
 Every entry is {"id", "family", "net": description, "opts": {...}} ready for vela_run."""
+import os
 import random
 
+from . import corpus_ops
 from .netgen import Net
 from .vela_run import ARM_INI
 
@@ -43,6 +45,28 @@ SINGLE_KINDS = ["conv", "conv_s2", "conv_valid", "conv1x1", "dw", "dw_s2", "maxp
                 "fc", "add", "sub", "mul", "reshape", "softmax", "mean", "concat", "tanh", "logistic", "relu",
                 "hardswish", "lrelu", "resize", "resizenn", "tconv", "pad", "abs", "quantize", "int16conv",
                 "split", "minimum", "dilconv"]
+N_LEGACY_KINDS = len(SINGLE_KINDS)
+# operator-coverage kinds (harness/corpus_ops.py), appended: legacy kinds keep their position and their random stream
+SINGLE_KINDS = SINGLE_KINDS + corpus_ops.ORDER
+OPS_KINDS = list(corpus_ops.ORDER)
+
+# Kinds / families that are built but left out of all_singles() / the default family list of draw() because a check
+# reports a VIOLATION on them that has not been triaged by the lead yet (see the comment of each entry).  The builders
+# stay available: f_single(rng, seed, kind) and draw(..., families=[...]) with an explicit name still produce them.
+PENDING_TRIAGE = [
+    # --- compilation aborts with a Python traceback instead of a result or a diagnosis (C13 CompilesOrDiagnoses);
+    #     reproductions: /var/tmp/corpus-ops/repro_<n>.py (copied to harness/repro/ by the lead after triage)
+    "concat_act",            # repro_1: CONCATENATION with a fused activation -> AssertionError in pass_packing.build_pass
+    "argmax", "argmax_u8_i64", "argmax_i64", "argmax_c127", "argmax_r2", "argmax_r3", "argmax_tail",
+                             # repro_2: every NPU-placed ARG_MAX -> OverflowError in convert_argmax_to_depthwise_conv_and_max_pool (numpy >= 2)
+    "conv_groups2", "conv_groups4",
+                             # repro_3: grouped CONV_2D -> TypeError int(axis_tens.values) in Operation.get_split_inputs_axis (numpy >= 2)
+    "nn_ac_x2", "nn_ac_x4", "nn_ac_x8",
+                             # repro_4: RESIZE_NEAREST_NEIGHBOR align_corners, depth > 1 -> ValueError reshape in convert_resizenn_ac_to_depthwise_conv
+    "rb_ac_x2_h1",           # repro_5: RESIZE_BILINEAR align_corners with IFM height 1 -> ValueError (NaN) in constraint_resize
+    "lstm", "lstm_batch2", "lstm_clip", "lstm_t1",
+                             # repro_6: batch-major UNIDIRECTIONAL_SEQUENCE_LSTM on Ethos-U55 -> AssertionError (LiveRange) / TypeError (no address)
+]
 
 
 def f_single(rng, seed, kind=None):
@@ -50,6 +74,9 @@ def f_single(rng, seed, kind=None):
                        "fc", "add", "sub", "mul", "reshape", "softmax", "mean", "concat", "tanh", "logistic", "relu",
                        "hardswish", "lrelu", "resize", "resizenn", "tconv", "pad", "abs", "quantize", "int16conv",
                        "split", "minimum", "dilconv"])
+    if kind in corpus_ops.KINDS:
+        n, outs = corpus_ops.KINDS[kind](rng, seed)
+        return "single:" + kind, n.desc(outs)
     n = Net(seed)
     H, W, C = rng.choice([4, 7, 8, 13, 16]), rng.choice([4, 8, 9, 16]), rng.choice([3, 8, 16, 24, 32])
     x = n.fm("in", [1, H, W, C], is_input=True)
@@ -540,19 +567,48 @@ FAMILIES = {"single": f_single, "chain": f_chain, "branch": f_branch, "mixed": f
             "lutcascade": f_lutcascade, "s2cascade": f_s2cascade, "cpuouts": f_cpuouts}
 
 
-def all_singles(seed, accel=None):
-    """every single-operator kind once (used by quick tiers that must touch every rewrite path)"""
+# families added for operator coverage (harness/corpus_ops.py), appended
+FAMILIES.update(corpus_ops.FAMILIES)
+N_LEGACY_FAMILIES = len(FAMILIES) - len(corpus_ops.FAMILIES)
+
+# VERIF_CORPUS_LEGACY=1 restores the corpus as it was before the operator-coverage kinds / families were added
+# (used to measure the cost of the wider corpus and to reproduce older results)
+LEGACY_ONLY = os.environ.get("VERIF_CORPUS_LEGACY") == "1"
+
+# Quick tiers compile the 32 legacy kinds plus every OPS_ROTATION-th operator-coverage kind, the residue class being
+# chosen by the seed: seeds s, s+1, ..., s+OPS_ROTATION-1 together cover every kind.  Thorough tiers compile all.
+OPS_ROTATION = 6
+
+
+def ops_kinds_for(seed, tier="quick"):
+    """operator-coverage kinds compiled by all_singles for this seed / tier, as (index in SINGLE_KINDS, kind)"""
+    if LEGACY_ONLY:
+        return []
+    live = [(N_LEGACY_KINDS + i, k) for i, k in enumerate(OPS_KINDS) if k not in PENDING_TRIAGE]
+    if tier == "thorough":
+        return live
+    return [(i, k) for pos, (i, k) in enumerate(live) if pos % OPS_ROTATION == seed % OPS_ROTATION]
+
+
+def all_singles(seed, accel=None, tier="quick"):
+    """every legacy single-operator kind once, plus the operator-coverage kinds selected by ops_kinds_for(seed, tier)
+    (used by quick tiers that must touch every rewrite path).  The network and configuration of a kind depend only on
+    (seed, kind), not on which other kinds are selected."""
     rng = random.Random(seed ^ 0x5a5a)
     out = []
-    for i, k in enumerate(SINGLE_KINDS):
+    for i, k in enumerate(SINGLE_KINDS[:N_LEGACY_KINDS]):
         label, net = f_single(rng, rng.randrange(1 << 20), k)
         out.append({"id": "s%d" % i, "family": label, "net": net, "opts": config_point(rng, accel)})
+    for i, k in ops_kinds_for(seed, tier):
+        rk = random.Random((seed * 1000003) ^ (i * 7919) ^ 0x0b5)
+        label, net = f_single(rk, rk.randrange(1 << 20), k)
+        out.append({"id": "s%d" % i, "family": label, "net": net, "opts": config_point(rk, accel)})
     return out
 
 
 def draw(n, seed, families=None, accel=None, dedicated_bias=0.0, weights=None):
     rng = random.Random(seed)
-    fams = families or list(FAMILIES)
+    fams = families or [f for i, f in enumerate(FAMILIES) if f not in PENDING_TRIAGE and not (LEGACY_ONLY and i >= N_LEGACY_FAMILIES)]
     out = []
     for i in range(n):
         fam = rng.choices(fams, weights=weights)[0] if weights else fams[i % len(fams)]
